@@ -216,7 +216,7 @@ class parse_lp_packet(Contract):
     def post(c, cx, result, wire, with_tl):
         from pyvc.values import OptInt
         reason, frag = result
-        return {'reason_is_optional_int': reason is None or isinstance(reason, OptInt) or is_symint(reason),
+        return {'reason_is_optional_int': reason is None or isinstance(reason, (OptInt, int)) or is_symint(reason),
                 'fragment_is_view_of_wire': frag is None or (isinstance(frag, View) and Eq(frag.cell, wire.cell) is True)}
 
     def result(c, cx, wire, with_tl):
